@@ -113,6 +113,165 @@ fn ivs_event(sets: &Value, implicit: bool, rep: &mut Report) -> Option<Value> {
         "regions": regions, "datas": datas, "probes": probes}))
 }
 
+/// regions and subtables of a compiled store, through the typed getters (rows stay raw bytes)
+fn store_json(store: &RStore) -> Result<(Vec<Value>, Vec<Value>), String> {
+    let rl = store.variation_region_list().map_err(|e| e.to_string())?;
+    let mut regions = vec![];
+    for r in rl.variation_regions().iter() {
+        let r = r.map_err(|e| e.to_string())?;
+        regions.push(json!(r.region_axes().iter().map(|a| vec![a.start_coord().to_bits() as i32 / Q, a.peak_coord().to_bits() as i32 / Q, a.end_coord().to_bits() as i32 / Q]).collect::<Vec<_>>()));
+    }
+    let mut datas = vec![];
+    for d in store.item_variation_data().iter() {
+        match d {
+            None => datas.push(json!({"item_count": 0, "word_count": 0, "region_indexes": [], "bytes": []})),
+            Some(d) => {
+                let d = d.map_err(|e| e.to_string())?;
+                datas.push(json!({"item_count": d.item_count(), "word_count": d.word_delta_count(),
+                    "region_indexes": d.region_indexes().iter().map(|x| x.get()).collect::<Vec<_>>(), "bytes": d.delta_sets()}));
+            }
+        }
+    }
+    Ok((regions, datas))
+}
+
+/// HVAR through skrifa's GlyphMetrics: a synthetic variable font (hmtx with fewer long metrics than glyphs, HVAR with
+/// explicit, truncated, missing or implicit index maps) and the advances / side bearings skrifa reports at probe locations
+fn hvar_event(rng: &mut Rng, rep: &mut Report) -> Option<Value> {
+    use crate::synth::{truetype_font, SynthOpts};
+    use skrifa::instance::{Location, Size};
+    use skrifa::metrics::GlyphMetrics;
+    use write_fonts::tables::glyf::{Bbox, Contour, Glyph, SimpleGlyph};
+    use write_fonts::tables::hvar::Hvar;
+    use write_fonts::tables::variations::DeltaSetIndexMap;
+    let ng = 3 + rng.below(8) as usize;
+    let nlong = 1 + rng.below(ng as u64) as usize;
+    let mut metrics: Vec<(u16, i16)> = (0..ng).map(|_| (rng.range(0, 1000) as u16, rng.range(-50, 50) as i16)).collect();
+    for m in metrics.iter_mut().skip(nlong) {
+        m.0 = 0; // glyphs beyond the long metrics have the last long advance
+    }
+    let axes = 1 + rng.below(2) as usize;
+    let pool: Vec<Value> = if axes == 1 { vec![json!([[0, 4, 4]]), json!([[0, 2, 4]]), json!([[-4, -4, 0]]), json!([[2, 4, 4]])] } else { vec![json!([[0, 4, 4], [0, 0, 0]]), json!([[0, 0, 0], [0, 4, 4]]), json!([[0, 4, 4], [0, 4, 4]]), json!([[-4, -4, 0], [0, 2, 4]])] };
+    let mode = rng.below(3); // 0: advance and lsb maps, 1: advance map only, 2: implicit indices, no maps
+    let set = |rng: &mut Rng| -> Vec<Value> {
+        let mut v = vec![];
+        for r in pool.iter() {
+            if rng.chance(1, 2) {
+                v.push(json!({"region": r, "delta": *rng.pick(&[0i64, 1, -1, 7, -20, 127, -128, 128, 300, -300])}));
+            }
+        }
+        v
+    };
+    let mut adv_sets: Vec<Vec<Value>> = (0..ng).map(|_| set(rng)).collect();
+    let mut lsb_sets: Vec<Vec<Value>> = (0..ng).map(|_| set(rng)).collect();
+    if rng.chance(1, 2) {
+        // trailing glyphs share their delta sets: the index maps may stop early
+        let k = 1 + rng.below(ng as u64 - 1) as usize;
+        for g in k..ng {
+            adv_sets[g] = adv_sets[k - 1].clone();
+            lsb_sets[g] = lsb_sets[k - 1].clone();
+        }
+    }
+    let case = json!({"kind": "hvar-case", "ng": ng, "nlong": nlong, "metrics": metrics, "mode": mode, "adv_sets": adv_sets, "lsb_sets": lsb_sets});
+    let to_deltas = |s: &Vec<Value>| -> Vec<(VariationRegion, i32)> { s.iter().map(|e| (region_of(&e["region"]), e["delta"].as_i64().unwrap() as i32)).collect() };
+    let built = guarded(|| -> Result<Vec<u8>, String> {
+        let mut b = if mode == 2 { VariationStoreBuilder::new_with_implicit_indices(axes as u16) } else { VariationStoreBuilder::new(axes as u16) };
+        let adv_ids: Vec<_> = adv_sets.iter().map(|s| b.add_deltas(to_deltas(s))).collect();
+        let lsb_ids: Vec<_> = if mode == 0 { lsb_sets.iter().map(|s| b.add_deltas(to_deltas(s))).collect() } else { vec![] };
+        let (store, remap) = b.build();
+        let map_of = |ids: &[u32]| -> Option<DeltaSetIndexMap> {
+            let v: Option<Vec<u32>> = ids.iter().map(|i| remap.get(*i).map(|x| ((x.delta_set_outer_index as u32) << 16) | x.delta_set_inner_index as u32)).collect();
+            v.map(|v| v.into_iter().collect())
+        };
+        let adv_map = if mode == 2 { None } else { Some(map_of(&adv_ids).ok_or("no index for an added delta set")?) };
+        let lsb_map = if mode == 0 { Some(map_of(&lsb_ids).ok_or("no index for an added delta set")?) } else { None };
+        write_fonts::dump_table(&Hvar::new(store, adv_map, lsb_map, None)).map_err(|e| format!("{e}"))
+    });
+    let hvar_bytes = match built {
+        Err(p) => {
+            rep.violation(&format!("building HVAR panicked: {p}"), case);
+            return None;
+        }
+        Ok(Err(e)) => {
+            rep.violation(&format!("HVAR does not compile: {e}"), case);
+            return None;
+        }
+        Ok(Ok(b)) => b,
+    };
+    // raw view of the compiled table: offsets and index maps parsed here, the store through the typed getters
+    let be32 = |o: usize| -> usize { u32::from_be_bytes([hvar_bytes[o], hvar_bytes[o + 1], hvar_bytes[o + 2], hvar_bytes[o + 3]]) as usize };
+    let raw_map = |off: usize| -> Value {
+        if off == 0 {
+            return json!({"none": true, "entry_format": 0, "map_count": 0, "bytes": []});
+        }
+        let (fmt, ef) = (hvar_bytes[off], hvar_bytes[off + 1]);
+        let (count, data) = if fmt == 0 { (u16::from_be_bytes([hvar_bytes[off + 2], hvar_bytes[off + 3]]) as usize, off + 4) } else { (be32(off + 2), off + 6) };
+        let sz = ((ef >> 4) & 3) as usize + 1;
+        json!({"none": false, "entry_format": ef, "map_count": count, "bytes": hvar_bytes[data..data + count * sz]})
+    };
+    let (adv_map, lsb_map) = (raw_map(be32(8)), raw_map(be32(12)));
+    let store = match RStore::read(FontData::new(&hvar_bytes[be32(4)..])) {
+        Ok(s) => s,
+        Err(e) => {
+            rep.violation(&format!("HVAR store does not parse: {e}"), case);
+            return None;
+        }
+    };
+    let (regions, datas) = match store_json(&store) {
+        Ok(x) => x,
+        Err(e) => {
+            rep.violation(&format!("HVAR store cannot be read back: {e}"), case);
+            return None;
+        }
+    };
+    let fvar = Fvar::new(AxisInstanceArrays::new(
+        (0..axes).map(|i| VariationAxisRecord::new(Tag::new(if i == 0 { b"wght" } else { b"wdth" }), Fixed::from_i32(-1), Fixed::from_i32(0), Fixed::from_i32(1), 0, NameId::new(256 + i as u16))).collect(),
+        vec![],
+    ));
+    let tri = Glyph::Simple(SimpleGlyph {
+        bbox: Bbox { x_min: 0, y_min: 0, x_max: 10, y_max: 10 },
+        contours: vec![Contour::from(vec![read_fonts::tables::glyf::CurvePoint::new(0, 0, true), read_fonts::tables::glyf::CurvePoint::new(10, 0, true), read_fonts::tables::glyf::CurvePoint::new(5, 10, true)])],
+        instructions: vec![],
+    });
+    let glyphs: Vec<Glyph> = (0..ng).map(|_| tri.clone()).collect();
+    let opts = SynthOpts { metrics: metrics.clone(), num_long_metrics: Some(nlong as u16), extra: vec![(Tag::new(b"HVAR"), hvar_bytes.clone()), (Tag::new(b"fvar"), write_fonts::dump_table(&fvar).unwrap())], ..Default::default() };
+    let font = truetype_font(&glyphs, &opts).ok()?;
+    let f = read_fonts::FontRef::new(&font).ok()?;
+    let probe_coords: Vec<Vec<i32>> = if axes == 1 { (-4..=4).map(|c| vec![c]).collect() } else { vec![vec![0, 0], vec![4, 0], vec![0, 4], vec![4, 4], vec![2, 2], vec![1, 3], vec![3, 4], vec![-4, 2], vec![2, -1]] };
+    let mut probes = vec![];
+    for pc in probe_coords {
+        let mut l = Location::new(axes);
+        for (i, c) in l.coords_mut().iter_mut().enumerate() {
+            *c = F2Dot14::from_bits((pc[i] * Q) as i16);
+        }
+        let r = guarded(|| {
+            let gm = GlyphMetrics::new(&f, Size::unscaled(), &l);
+            let adv: Vec<Option<f32>> = (0..ng as u32 + 1).map(|g| gm.advance_width(font_types::GlyphId::new(g))).collect();
+            let lsb: Vec<Option<f32>> = (0..ng as u32 + 1).map(|g| gm.left_side_bearing(font_types::GlyphId::new(g))).collect();
+            (adv, lsb)
+        });
+        let (adv, lsb) = match r {
+            Ok(x) => x,
+            Err(p) => {
+                rep.violation(&format!("GlyphMetrics panicked: {p}"), case);
+                return None;
+            }
+        };
+        if adv[..ng].iter().any(|a| a.is_none()) || lsb[..ng].iter().any(|a| a.is_none()) || adv[ng].is_some() || lsb[ng].is_some() {
+            rep.violation("GlyphMetrics: a glyph of the font has no metrics, or a glyph id beyond the font has", case);
+            return None;
+        }
+        let ints = |v: &[Option<f32>]| -> Option<Vec<i64>> { v[..ng].iter().map(|x| x.filter(|x| x.fract() == 0.0).map(|x| x as i64)).collect() };
+        let (Some(a), Some(b)) = (ints(&adv), ints(&lsb)) else {
+            rep.violation("GlyphMetrics: an unscaled metric is not an integer", case);
+            return None;
+        };
+        probes.push(json!({"coords": pc, "adv": a, "lsb": b}));
+    }
+    Some(json!({"op": "hvar", "ng": ng, "long": metrics[..nlong].iter().map(|m| vec![m.0 as i64, m.1 as i64]).collect::<Vec<_>>(), "lsbs": metrics[nlong..].iter().map(|m| m.1).collect::<Vec<_>>(),
+        "adv_sets": adv_sets, "lsb_sets": lsb_sets, "regions": regions, "datas": datas, "adv_map": adv_map, "lsb_map": lsb_map, "probes": probes}))
+}
+
 fn norm_event(rng: &mut Rng, rep: &mut Report) -> Option<Value> {
     let mut v = [rng.range(-300, 300), rng.range(-300, 1000), rng.range(100, 1000)];
     v.sort();
@@ -371,6 +530,10 @@ pub fn main(args: &[String]) {
                     ev.push(e);
                 }
                 if let Some(e) = norm_event(&mut rng, &mut rep) {
+                    ev.push(e);
+                }
+                if let Some(e) = hvar_event(&mut rng, &mut rep) {
+                    rep.add("hvar_fonts", 1);
                     ev.push(e);
                 }
                 if let Some(e) = avar_event(&mut rng, &mut rep) {
